@@ -576,6 +576,48 @@ def _mentions_local_values(e):
     return any(_mentions_local_values(x) for x in e if isinstance(x, tuple))
 
 
+def direction(rep, prog, rule):
+    rep.rule(rule, "the public entry points of PixelComponentMapper use the table group their name says: "
+             "forward_map / forward_map_inplace read `forward_mapping_tables`, backward_map / "
+             "backward_map_inplace read `backward_mapping_tables` (the four wrappers have one shape; a body "
+             "copied from the sibling keeps the other group and applies the forward function where the "
+             "backward one is asked for: values still monotone, 0 -> 0, max -> max)")
+    n = 0
+    for f in sorted(prog.fns.values(), key=lambda x: x.id):
+        m = re.search(r"PixelComponentMapper::(forward|backward)_map(_inplace)?$", f.name)
+        if not m or f.kind == "closure":
+            continue
+        n += 1
+        rep.touch(f)
+        want = m.group(1)
+        used = set()
+        for blk in f.blocks:
+            if blk["c"]:
+                continue
+            for st in blk["s"]:
+                for el in _walk_fields(st):
+                    if el in ("forward_mapping_tables", "backward_mapping_tables"):
+                        used.add(el.split("_")[0])
+        key = f.name.rsplit("::", 1)[-1]
+        if used == {want}:
+            rep.ok(rule, key, f.loc, "%s tables" % want)
+        elif not used:
+            rep.unk(rule, key, f.loc, "no table group is read")
+        else:
+            rep.bad(rule, key + "|other-group", f.loc, "%s reads the %s tables" % (f.name, " and ".join(sorted(used))))
+    rep.floor(rule, "directional entry points of PixelComponentMapper", n, 4)
+
+
+def _walk_fields(x):
+    if isinstance(x, list):
+        if len(x) == 3 and x[0] == "f" and isinstance(x[2], str):
+            yield x[2]
+        for y in x:
+            if isinstance(y, list):
+                for z in _walk_fields(y):
+                    yield z
+
+
 def run(rep, tier):
     cfgs = ["x86"] if tier == "quick" else ["x86", "arm", "wasm"]
     for cfg, prog in programs(cfgs):
@@ -586,3 +628,4 @@ def run(rep, tier):
         rep.call(reject, rep, prog, "C16.reject")
         rep.call(table_ctor, rep, prog, "C16.table-ctor")
         rep.call(entry_formula, rep, prog, "C16.entry-formula")
+        rep.call(direction, rep, prog, "C16.direction")
